@@ -108,3 +108,18 @@ Print Assumptions wound_mode_nth.
 Example error_mode_example :
   vpool_error 2 (fun b : list N => b) nlist_eqb [[1;2];[3;4];[5]]%N [[1];[2;3];[9;5]]%N = (Failed, 2, [[1;2]]%N).
 Proof. vm_compute. reflexivity. Qed.
+
+(** Which call fails: with [k] successful Write calls before the failure, the first [k] writes
+    on their own all succeed (no rejected block is complete yet), and the failing call is either
+    Write number [k] (0-based) - the one whose bytes complete the rejected block - or, when
+    [k = length ws], Close flushing the short last block. *)
+Theorem failing_call_is_the_completing_one :
+  forall (A St : Type) (bs : nat) (validate : St -> list A -> St * bool) (s0 : St) (ws : list (list A))
+         (w' : @dw A St) (k : nat),
+    session bs validate s0 ws = (w', Failed, k) ->
+    (k = length ws /\ exists w1, writes bs validate (mkdw [] s0 []) ws 0 = (w1, Done, k) /\ close validate w1 = (w', Failed)) \/
+    (k < length ws /\ exists w1 d,
+        writes bs validate (mkdw [] s0 []) (firstn k ws) 0 = (w1, Done, k) /\
+        nth_error ws k = Some d /\ write bs validate w1 d = (w', Failed)).
+Proof. exact (@session_failing_call). Qed.
+Print Assumptions failing_call_is_the_completing_one.
